@@ -64,6 +64,63 @@ def v_golomb(marks, length):
     return len(set(d)) == len(d) and marks[-1] - marks[0] == length
 
 
+def v_quasigroup(n, s, qg5=False):
+    m = [s[i * n:(i + 1) * n] for i in range(n)]
+    if not v_latin(n, s) or any(m[i][i] != i for i in range(n)):
+        return False
+    # the dual models: row[c][j] = i <=> m[i][j] = c ; column[i][c] = j <=> m[i][j] = c
+    row = [s[n * n + c * n:n * n + (c + 1) * n] for c in range(n)]
+    col = [s[2 * n * n + i * n:2 * n * n + (i + 1) * n] for i in range(n)]
+    for i in range(n):
+        for j in range(n):
+            c = m[i][j]
+            if row[c][j] != i or col[i][c] != j:
+                return False
+    if qg5:
+        return all(m[m[m[b][a]][b]][b] == a for a in range(n) for b in range(n))
+    return True
+
+
+def v_sports(n, s):
+    weeks, periods = n - 1, n // 2
+    team = lambda p, w, k: s[p * (weeks * 2) + w * 2 + k]
+    games = set()
+    for w in range(weeks):
+        ts = [team(p, w, k) for p in range(periods) for k in range(2)]
+        if sorted(ts) != list(range(n)):
+            return False
+    for p in range(periods):
+        ts = [team(p, w, k) for w in range(weeks) for k in range(2)]
+        if any(ts.count(t) > 2 for t in range(n)):
+            return False
+        for w in range(weeks):
+            a, b = team(p, w, 0), team(p, w, 1)
+            if not a < b:
+                return False
+            games.add((a, b))
+    return len(games) == n * (n - 1) // 2
+
+
+def v_bibd(v, b, r, k, l, s):
+    m = [s[i * b:(i + 1) * b] for i in range(v)]
+    return (all(x in (0, 1) for x in s[:v * b]) and all(sum(row) == r for row in m) and all(sum(m[i][j] for i in range(v)) == k for j in range(b))
+            and all(sum(m[i1][j] * m[i2][j] for j in range(b)) == l for i1 in range(v) for i2 in range(i1 + 1, v)))
+
+
+def v_sudoku(givens, s):
+    g = [s[i * 9:(i + 1) * 9] for i in range(9)]
+    ok = all(sorted(r) == list(range(1, 10)) for r in g) and all(sorted(g[i][j] for i in range(9)) == list(range(1, 10)) for j in range(9))
+    ok = ok and all(sorted(g[3 * a + i][3 * b + j] for i in range(3) for j in range(3)) == list(range(1, 10)) for a in range(3) for b in range(3))
+    return ok and all(givens[i][j] in (0, g[i][j]) for i in range(9) for j in range(9))
+
+
+SUDOKU = [[0, 0, 0, 0, 0, 0, 0, 0, 0], [0, 0, 0, 0, 0, 3, 0, 8, 5], [0, 0, 1, 0, 2, 0, 0, 0, 0], [0, 0, 0, 5, 0, 7, 0, 0, 0],
+          [0, 0, 4, 0, 0, 0, 1, 0, 0], [0, 9, 0, 0, 0, 0, 0, 0, 0], [5, 0, 0, 0, 0, 0, 0, 7, 3], [0, 0, 2, 0, 1, 0, 0, 0, 0],
+          [0, 0, 0, 0, 4, 0, 0, 0, 9]]
+SUDOKU_EASY = [[5, 3, 0, 0, 7, 0, 0, 0, 0], [6, 0, 0, 1, 9, 5, 0, 0, 0], [0, 9, 8, 0, 0, 0, 0, 6, 0], [8, 0, 0, 0, 6, 0, 0, 0, 3],
+               [4, 0, 0, 8, 0, 3, 0, 0, 1], [7, 0, 0, 0, 2, 0, 0, 0, 6], [0, 6, 0, 0, 0, 0, 2, 8, 0], [0, 0, 0, 4, 1, 9, 0, 0, 5],
+               [0, 0, 0, 0, 8, 0, 0, 7, 9]]
+
 KNOWN = {
     "queens": {1: 1, 2: 0, 3: 0, 4: 2, 5: 10, 6: 4, 7: 40, 8: 92, 9: 352},          # OEIS A000170
     "latin_square": {1: 1, 2: 2, 3: 12, 4: 576},                                     # OEIS A002860
@@ -87,7 +144,11 @@ def run(ctx):
     from nucs.examples.schur_lemma.schur_lemma_problem import SchurLemmaProblem
     from nucs.examples.tsp.tsp_problem import TSPProblem
     from nucs.problems.circuit_problem import CircuitProblem
-    from nucs.problems.latin_square_problem import LatinSquareProblem
+    from nucs.problems.latin_square_problem import LatinSquareProblem, LatinSquareRCProblem
+    from nucs.examples.bibd.bibd_problem import BIBDProblem
+    from nucs.examples.quasigroup.quasigroup_problem import Quasigroup5Problem, QuasigroupProblem
+    from nucs.examples.sports_tournament_scheduling.sports_tournament_scheduling_problem import SportsTournamentSchedulingProblem
+    from nucs.examples.sudoku.sudoku_problem import SudokuProblem
 
     report = ctx["report"]
     rng = random.Random(ctx["seed"] + 2001)
@@ -107,11 +168,40 @@ def run(ctx):
         inst.append(("schur", [n, 1], SchurLemmaProblem(n, True), lambda s, n=n: v_schur(n, s), None))
     for n in ([3, 4, 5] if not thorough else [2, 3, 4, 5, 6]):
         inst.append(("circuit", [n], CircuitProblem(n), lambda s, n=n: v_circuit(n, s), KNOWN["circuit"].get(n)))
+    # quasigroups (idempotent Latin squares with their two dual models; QG5), both settings of symmetry breaking
+    for n in ([2, 3, 4, 5] if not thorough else [1, 2, 3, 4, 5, 6]):
+        for sb in (0, 1):
+            inst.append(("quasigroup", [n, sb], QuasigroupProblem(n, bool(sb)), lambda s, n=n: v_quasigroup(n, s), None))
+    for n in ([3, 5] if not thorough else [3, 4, 5, 6, 7]):
+        for sb in (0, 1):
+            inst.append(("quasigroup5", [n, sb], Quasigroup5Problem(n, bool(sb)), lambda s, n=n: v_quasigroup(n, s, True), None))
+    for n in ([2, 3] if not thorough else [1, 2, 3, 4]):
+        inst.append(("latin_square_rc", [n], LatinSquareRCProblem(n), lambda s, n=n: v_latin(n, s), KNOWN["latin_square"].get(n)))
+    for n in ([2, 4] if not thorough else [2, 4, 6]):
+        for sb in (0, 1):
+            if n == 6 and sb == 0:
+                continue  # too many schedules to enumerate
+            inst.append(("sports_tournament_scheduling", [n, sb], SportsTournamentSchedulingProblem(n, bool(sb)), lambda s, n=n: v_sports(n, s), None))
+    for (v_, b_, r_, k_, l_) in ([(3, 3, 2, 2, 1), (4, 6, 3, 2, 1)] if not thorough else [(3, 3, 2, 2, 1), (4, 6, 3, 2, 1), (6, 10, 5, 3, 2), (7, 7, 3, 3, 1)]):
+        for sb in (0, 1):
+            inst.append(("bibd", [v_, b_, r_, k_, l_, sb], BIBDProblem(v_, b_, r_, k_, l_, bool(sb)),
+                         lambda s, a=(v_, b_, r_, k_, l_): v_bibd(*a, s), None))
+    inst.append(("sudoku", [x for r_ in SUDOKU_EASY for x in r_], SudokuProblem(SUDOKU_EASY), lambda s: v_sudoku(SUDOKU_EASY, s), 1))
+    if thorough:
+        inst.append(("sudoku", [x for r_ in SUDOKU for x in r_], SudokuProblem(SUDOKU), lambda s: v_sudoku(SUDOKU, s), 1))
+    inst.append(("magic_square", [4, 1], MagicSquareProblem(4, True), None, None))   # constructor only (880 squares: thorough tier of C02)
+    for n in ([3, 5] if not thorough else [3, 4, 5, 6, 7]):
+        for sb in (0, 1):
+            inst.append(("golomb", [n, sb], GolombProblem(n, bool(sb)), None, None))
+    for n in (6, 8):
+        inst.append(("sports_tournament_scheduling", [n, 1], SportsTournamentSchedulingProblem(n, True), None, None))
     # the Lean model of every instance must be the arrays the Python constructor posts (the translation tie for models)
     reqs, cases = [], []
     for name, args, p, val, exp in inst:
         prob = from_problem(p)
         reqs.append((f"example {name} {nv.enc_ints(args)}", posted_dump(prob), name, args))
+        if val is None:
+            continue  # constructor comparison only
         for cons in (0, 1):
             for (vh, dh) in ((0, 0), (1, 3)) if not thorough else ((0, 0), (1, 3), (2, 1), (1, 2)):
                 cases.append(({"op": "solve", "problem": prob.to_json(), "cfg": ce.cfg_json(nv.Cfg(cons=cons, varh=vh, domh=dh))}, name, args, val, exp))
@@ -182,12 +272,14 @@ def run(ctx):
     for key, cs in counts.items():
         if len(cs) > 1:
             viol.append({"kind": "example", "model": key[0], "args": list(key[1]), "detail": f"solution count depends on the configuration: {sorted(cs)}"})
-    # symmetry breaking preserves satisfiability (Schur) and the number of essentially different squares
-    for n in ([4, 6] if not thorough else [3, 4, 5, 6, 7, 8]):
-        a = counts.get(("schur", (n, 0)))
-        b = counts.get(("schur", (n, 1)))
-        if a and b and ((min(a) > 0) != (min(b) > 0)):
-            viol.append({"kind": "example", "model": "schur", "args": [n], "detail": f"symmetry breaking changed satisfiability: {a} vs {b}"})
+    # symmetry breaking preserves satisfiability (every model with a flag) and can only remove solutions
+    for (name, args), cs in list(counts.items()):
+        if args and args[-1] == 0 and (name, args[:-1] + (1,)) in counts:
+            a, b = cs, counts[(name, args[:-1] + (1,))]
+            if (min(a) > 0) != (min(b) > 0):
+                viol.append({"kind": "example", "model": name, "args": list(args[:-1]), "detail": f"symmetry breaking changed satisfiability: {sorted(a)} solutions without, {sorted(b)} with"})
+            if min(b) > min(a):
+                viol.append({"kind": "example", "model": name, "args": list(args[:-1]), "detail": f"symmetry breaking ADDED solutions: {sorted(a)} without, {sorted(b)} with"})
     # optimisation examples: knapsack and Golomb against brute force / literature
     import nucs.examples.golomb.golomb_problem as G
     for marks in ([4, 5] if not thorough else [4, 5, 6, 7]):
@@ -212,5 +304,5 @@ def run(ctx):
                           "validator, no duplicates, the count must equal the literature value (OEIS A000170, A002860, (n-1)!, magic squares, A003022) "
                           "and must not depend on the configuration; symmetry breaking preserves satisfiability; optima equal brute force/literature")
     return {"corr_diffs": corr, "violations": viol, "component": "exampleByName (NucsModel/Examples.lean) vs the shipped model constructors",
-            "partial": ["Sol ↔ Valid is proved for 12 of the 15 models (C20_queens, C20_latinSquare, C20_magicSequence, C20_knapsack, C20_schurLemma, C20_circuit, C20_magicSquare, C20_sudoku, C20_bibd, C20_alpha, C20_donald, C20_tsp); golomb, quasigroup, sports scheduling are modelled and tied but not proved",
+            "partial": ["Sol ↔ Valid is proved for all 15 shipped models and every instance parameter; it is about the Lean model of each constructor, which is compared with the arrays the Python constructor posts on the instances listed under distribution.model_compared",
                         "literature counts and preservation of satisfiability/optimum by symmetry breaking are tested, not proved (the kernel cannot enumerate 8-queens)"]}
